@@ -317,9 +317,9 @@ Table == <<
    recv |-> "42", args |-> <<>>,
    probes |-> <<
       [count |-> 0, recv |-> "42", args |-> <<>>, mode |-> "exact",
-       exp |-> <<S(<<52, 50>>)>>],
+       exp |-> <<S(<<52, 50>>) (* 42 *)>>],
       [count |-> 0, recv |-> "true", args |-> <<>>, mode |-> "exact",
-       exp |-> <<S(<<116, 114, 117, 101>>)>>]>>],
+       exp |-> <<S(<<116, 114, 117, 101>>) (* true *)>>]>>],
   [name |-> "convertsToString", status |-> "implemented", counts |-> {0},
    recv |-> "42", args |-> <<>>,
    probes |-> <<
@@ -364,9 +364,9 @@ Table == <<
    recv |-> "'abcdef'", args |-> <<"2", "3">>,
    probes |-> <<
       [count |-> 1, recv |-> "'abcdef'", args |-> <<"2">>, mode |-> "exact",
-       exp |-> <<S(<<99, 100, 101, 102>>)>>],
+       exp |-> <<S(<<99, 100, 101, 102>>) (* cdef *)>>],
       [count |-> 2, recv |-> "'abcdef'", args |-> <<"2", "3">>, mode |-> "exact",
-       exp |-> <<S(<<99, 100, 101>>)>>]>>],
+       exp |-> <<S(<<99, 100, 101>>) (* cde *)>>]>>],
   [name |-> "startsWith", status |-> "implemented", counts |-> {1},
    recv |-> "'abcdef'", args |-> <<"'abc'">>,
    probes |-> <<
@@ -398,19 +398,19 @@ Table == <<
    recv |-> "'aBc'", args |-> <<>>,
    probes |-> <<
       [count |-> 0, recv |-> "'aBc'", args |-> <<>>, mode |-> "exact",
-       exp |-> <<S(<<65, 66, 67>>)>>]>>],
+       exp |-> <<S(<<65, 66, 67>>) (* ABC *)>>]>>],
   [name |-> "lower", status |-> "implemented", counts |-> {0},
    recv |-> "'aBc'", args |-> <<>>,
    probes |-> <<
       [count |-> 0, recv |-> "'aBc'", args |-> <<>>, mode |-> "exact",
-       exp |-> <<S(<<97, 98, 99>>)>>]>>],
+       exp |-> <<S(<<97, 98, 99>>) (* abc *)>>]>>],
   [name |-> "replace", status |-> "implemented", counts |-> {2},
    recv |-> "'abcabc'", args |-> <<"'b'", "'X'">>,
    probes |-> <<
       [count |-> 2, recv |-> "'abcabc'", args |-> <<"'b'", "'X'">>, mode |-> "exact",
-       exp |-> <<S(<<97, 88, 99, 97, 88, 99>>)>>],
+       exp |-> <<S(<<97, 88, 99, 97, 88, 99>>) (* aXcaXc *)>>],
       [count |-> 2, recv |-> "'abcabc'", args |-> <<"'b.'", "'X'">>, mode |-> "exact",
-       exp |-> <<S(<<97, 98, 99, 97, 98, 99>>)>>]>>],
+       exp |-> <<S(<<97, 98, 99, 97, 98, 99>>) (* abcabc *)>>]>>],
   [name |-> "matches", status |-> "implemented", counts |-> {1},
    recv |-> "'abcdef'", args |-> <<"'^a.c.*f$'">>,
    probes |-> <<
@@ -422,9 +422,9 @@ Table == <<
    recv |-> "'abcabc'", args |-> <<"'b.'", "'X'">>,
    probes |-> <<
       [count |-> 2, recv |-> "'abcabc'", args |-> <<"'b.'", "'X'">>, mode |-> "exact",
-       exp |-> <<S(<<97, 88, 97, 88>>)>>],
+       exp |-> <<S(<<97, 88, 97, 88>>) (* aXaX *)>>],
       [count |-> 2, recv |-> "'abcabc'", args |-> <<"'b'", "'X'">>, mode |-> "exact",
-       exp |-> <<S(<<97, 88, 99, 97, 88, 99>>)>>]>>],
+       exp |-> <<S(<<97, 88, 99, 97, 88, 99>>) (* aXcaXc *)>>]>>],
   [name |-> "length", status |-> "implemented", counts |-> {0},
    recv |-> "'aBc'", args |-> <<>>,
    probes |-> <<
@@ -434,7 +434,7 @@ Table == <<
    recv |-> "'aBc'", args |-> <<>>,
    probes |-> <<
       [count |-> 0, recv |-> "'aBc'", args |-> <<>>, mode |-> "exact",
-       exp |-> <<S(<<97>>), S(<<66>>), S(<<99>>)>>]>>],
+       exp |-> <<S(<<97>>) (* a *), S(<<66>>) (* B *), S(<<99>>) (* c *)>>]>>],
   [name |-> "abs", status |-> "implemented", counts |-> {0},
    recv |-> "(-1.4)", args |-> <<>>,
    probes |-> <<
@@ -561,9 +561,9 @@ Table == <<
    recv |-> "%strs", args |-> <<"','">>,
    probes |-> <<
       [count |-> 0, recv |-> "%strs", args |-> <<>>, mode |-> "exact",
-       exp |-> <<S(<<97, 98>>)>>],
+       exp |-> <<S(<<97, 98>>) (* ab *)>>],
       [count |-> 1, recv |-> "%strs", args |-> <<"','">>, mode |-> "exact",
-       exp |-> <<S(<<97, 44, 98>>)>>]>>]
+       exp |-> <<S(<<97, 44, 98>>) (* a,b *)>>]>>]
 >>
 
 Statuses == {"implemented", "notImplemented", "experimental"}
